@@ -177,7 +177,7 @@ class CSSRuleRules(CSSRule):
         cssRules.__delitem__ = self.deleteRule
 
         for rule in cssRules:
-            rule._parentRule = self
+            rule._parent = rule._parentRule = self
             rule._parentStyleSheet = None
 
         self._cssRules = cssRules
@@ -222,6 +222,7 @@ class CSSRuleRules(CSSRule):
 
         try:
             # detach
+            self._cssRules[index]._parent = None
             self._cssRules[index]._parentRule = None
             del self._cssRules[index]
 
@@ -273,7 +274,7 @@ class CSSRuleRules(CSSRule):
 
     def _finishInsertRule(self, rule, index):
         "add `rule` at `index`"
-        rule._parentRule = self
+        rule._parent = rule._parentRule = self
         rule._parentStyleSheet = None
         self._cssRules.insert(index, rule)
         return index
